@@ -35,7 +35,11 @@ def extra_join_probe(tier, seed):
     real = vlib.sh([bins["join_probe"]], timeout=300, check=True).stdout.strip().splitlines()
     model = vlib.sh([vlib.DRIVER, "--join-table"], check=True).stdout.strip().splitlines()
     viol = []
-    if real != model:
+    # the probe runs some cases several times under different fates of the actor after the reply
+    # (kept alive, killed, stopped while the task is still running): the model's answer for a case
+    # does not depend on that, so every real row must be a row of the model's table, and every row
+    # of the table must have been exercised
+    if any(r not in model for r in real) or any(m not in real for m in model):
         viol.append(dict(what="ask_join: real results differ from the model's table", real=real, model=model,
                          replay_cmd="join_probe"))
     return dict(violations=viol, coverage=dict(ask_join_cases=len(model), ask_join_rows=real))
